@@ -56,13 +56,14 @@ VARIABLES
     lng,         \* [Keys -> [at, fwd, ack]]: Disconnect reported on receiving a DISCONNECT at `at` (-1: none); DISCONNECTs forwarded to it within the linger since; DISCONNECT-ACKs it sent since
     nData,       \* [Keys -> data frames that side has put on the wire since its Connect]
     bytesIn, bytesOut, verified,   \* [Peers -> ...]  C18
+    apPrev, apBefore,      \* upper bound on the server's pending + active entries at the latest / previous server StepEnd
     trackedPrev, trackedBefore, synThisStep, synLastStep,      \* server bookkeeping for C17 (values at the latest / previous server StepEnd)
     cfg,         \* the Reset record
     seenWhy,     \* reasons already reported in this run (each is reported once per run)
     bad
 
 vars == <<l, st, closing, T, ka, lastHeard, inbox, lastStep, maxGap, connectT, cNonce, synSeen, synCount, curSynack, ackFwd, srvIssued, cliAcked, used,
-          sAccepted, cAccepted, errFwd, saFwd, sentOn, relWait, mustDeliver, discAt, discCount, lng, nData, bytesIn, bytesOut, verified, trackedPrev, trackedBefore, synThisStep, synLastStep, cfg, seenWhy, bad>>
+          sAccepted, cAccepted, errFwd, saFwd, sentOn, relWait, mustDeliver, discAt, discCount, lng, nData, bytesIn, bytesOut, verified, apPrev, apBefore, trackedPrev, trackedBefore, synThisStep, synLastStep, cfg, seenWhy, bad>>
 
 EpNames == Peers \cup {"s"}
 K(side, p) == <<side, p>>
@@ -79,7 +80,7 @@ InitVals ==
     /\ sAccepted = [p \in Peers |-> NoNonce] /\ cAccepted = [p \in Peers |-> NoNonce] /\ errFwd = [p \in Peers |-> {}] /\ saFwd = [p \in Peers |-> {}]
     /\ sentOn = [k \in Keys |-> FALSE] /\ relWait = [k \in Keys |-> {}] /\ mustDeliver = [k \in Keys |-> {}] /\ discAt = [k \in Keys |-> -1] /\ discCount = [k \in Keys |-> 0] /\ lng = [k \in Keys |-> [at |-> -1, fwd |-> 0, ack |-> 0]] /\ nData = [k \in Keys |-> 0]
     /\ bytesIn = [p \in Peers |-> 0] /\ bytesOut = [p \in Peers |-> 0] /\ verified = [p \in Peers |-> FALSE]
-    /\ trackedPrev = 0 /\ trackedBefore = 0 /\ synThisStep = {} /\ synLastStep = {}
+    /\ apPrev = 0 /\ apBefore = 0 /\ trackedPrev = 0 /\ trackedBefore = 0 /\ synThisStep = {} /\ synLastStep = {}
 
 Init == l = 1 /\ InitVals /\ bad = {} /\ seenWhy = {}
             /\ cfg = [max_active |-> 1, max_total |-> 1, lossfree |-> FALSE, steady |-> FALSE, crate |-> [p \in Peers |-> 0],
@@ -97,7 +98,7 @@ Reset ==
     /\ sAccepted' = [p \in Peers |-> NoNonce] /\ cAccepted' = [p \in Peers |-> NoNonce] /\ errFwd' = [p \in Peers |-> {}] /\ saFwd' = [p \in Peers |-> {}]
     /\ sentOn' = [k \in Keys |-> FALSE] /\ relWait' = [k \in Keys |-> {}] /\ mustDeliver' = [k \in Keys |-> {}] /\ discAt' = [k \in Keys |-> -1] /\ discCount' = [k \in Keys |-> 0] /\ lng' = [k \in Keys |-> [at |-> -1, fwd |-> 0, ack |-> 0]] /\ nData' = [k \in Keys |-> 0]
     /\ bytesIn' = [p \in Peers |-> 0] /\ bytesOut' = [p \in Peers |-> 0] /\ verified' = [p \in Peers |-> FALSE]
-    /\ trackedPrev' = 0 /\ trackedBefore' = 0 /\ synThisStep' = {} /\ synLastStep' = {}
+    /\ apPrev' = 0 /\ apBefore' = 0 /\ trackedPrev' = 0 /\ trackedBefore' = 0 /\ synThisStep' = {} /\ synLastStep' = {}
     /\ cfg' = [max_active |-> Cur.max_active, max_total |-> Cur.max_total, lossfree |-> Cur.lossfree, steady |-> Cur.steady, crate |-> [p \in Peers |-> 0], server |-> Cur.server]
     /\ UNCHANGED bad
 
@@ -120,7 +121,7 @@ AppConnect ==
        /\ discAt' = [discAt EXCEPT ![k] = -1] /\ discCount' = [discCount EXCEPT ![k] = 0] /\ lng' = [lng EXCEPT ![k] = [at |-> -1, fwd |-> 0, ack |-> 0]]
        /\ nData' = [nData EXCEPT ![k] = 0]
     /\ UNCHANGED <<lastHeard, lastStep, maxGap, synSeen, curSynack, ackFwd, srvIssued, cliAcked, used, sAccepted,
-                   bytesIn, bytesOut, verified, trackedPrev, trackedBefore, synThisStep, synLastStep, bad>>
+                   bytesIn, bytesOut, verified, apPrev, apBefore, trackedPrev, trackedBefore, synThisStep, synLastStep, bad>>
 
 App ==
     /\ IsEvent("App")
@@ -149,7 +150,7 @@ App ==
     \* Server::drop forgets the connection at once: a dropped endpoint owes no answers
     /\ lng' = IF Cur.call = "drop" THEN [lng EXCEPT ![K(IF Cur.ep = "s" THEN "S" ELSE "C", IF Cur.ep = "s" THEN Cur.peer ELSE Cur.ep)] = [at |-> -1, fwd |-> 0, ack |-> 0]] ELSE lng
     /\ UNCHANGED <<T, ka, lastHeard, inbox, lastStep, maxGap, connectT, cNonce, synSeen, synCount, curSynack, ackFwd, srvIssued, cliAcked, used, sAccepted, cAccepted, errFwd, saFwd,
-                   discAt, discCount, nData, bytesIn, bytesOut, verified, trackedPrev, trackedBefore, synThisStep, synLastStep, cfg, bad>>
+                   discAt, discCount, nData, bytesIn, bytesOut, verified, apPrev, apBefore, trackedPrev, trackedBefore, synThisStep, synLastStep, cfg, bad>>
 
 \* ------------------------------------------------------------------------------------------ network
 (* A datagram an endpoint put on the wire (seen at the relay before any fate is applied). *)
@@ -179,8 +180,8 @@ Wire ==
                      \cup (IF fromS /\ Cur.type = "ERR" /\ Cur.err = "ServerFull"
                            THEN LET overdue == {q \in Peers : /\ st[K("S", q)] = "conn" /\ closing[K("S", q)] = "" /\ discAt[K("S", q)] < 0
                                                               /\ lastStep["s"] - maxGap["s"] >= lastHeard[K("S", q)] + T[K("S", q)]}
-                                    n == trackedBefore + Cardinality(synLastStep \cup synThisStep) - Cardinality(overdue)
-                                IN IF overdue # {} /\ n < cfg.max_total /\ n < cfg.max_active
+                                    nsyn == Cardinality(synLastStep \cup synThisStep)
+                                IN IF overdue # {} /\ trackedBefore + nsyn - Cardinality(overdue) < cfg.max_total /\ apBefore + nsyn - Cardinality(overdue) < cfg.max_active
                                    THEN Flag("C17", "refused-with-serverfull-while-a-silent-connection-was-overdue-for-its-timeout") ELSE {}
                            ELSE {})
                      \* a client confirms - by an ACK carrying the server's nonce - only a SYN-ACK that reached it and echoes the
@@ -208,7 +209,7 @@ Wire ==
        /\ discCount' = IF Cur.type = "DISC" /\ st[k] = "conn" THEN [discCount EXCEPT ![k] = @ + 1] ELSE discCount
        /\ lng' = IF Cur.type = "DISCACK" /\ lng[k].at >= 0 THEN [lng EXCEPT ![k].ack = @ + 1] ELSE lng
     /\ UNCHANGED <<st, closing, T, ka, lastHeard, inbox, lastStep, maxGap, connectT, synSeen, ackFwd, used, sAccepted, cAccepted, errFwd, saFwd,
-                   sentOn, relWait, mustDeliver, bytesIn, verified, trackedPrev, trackedBefore, synThisStep, synLastStep, cfg>>
+                   sentOn, relWait, mustDeliver, bytesIn, verified, apPrev, apBefore, trackedPrev, trackedBefore, synThisStep, synLastStep, cfg>>
 
 (* A datagram handed to an endpoint's socket (genuine after its fate, duplicated, or forged). *)
 Fwd ==
@@ -228,7 +229,7 @@ Fwd ==
        /\ lng' = IF Cur.type = "DISC" /\ lng[k].at >= 0 /\ Cur.t <= lng[k].at + 18000 THEN [lng EXCEPT ![k].fwd = @ + 1] ELSE lng
        /\ errFwd' = IF ~toS /\ Cur.type = "ERR" THEN [errFwd EXCEPT ![p] = @ \cup {<<Nonce(Cur, "nonce_ack", "nonce_ack_lsb"), Cur.err>>}] ELSE errFwd
     /\ UNCHANGED <<st, closing, T, ka, lastHeard, lastStep, maxGap, connectT, cNonce, synCount, curSynack, srvIssued, cliAcked, used, sAccepted, cAccepted,
-                   sentOn, relWait, mustDeliver, discAt, discCount, nData, bytesOut, verified, trackedPrev, trackedBefore, synLastStep, cfg, bad>>
+                   sentOn, relWait, mustDeliver, discAt, discCount, nData, bytesOut, verified, apPrev, apBefore, trackedPrev, trackedBefore, synLastStep, cfg, bad>>
 
 
 (* The limits an end holds for the connection it has just reported (logged right after its Connect event, through the
@@ -253,7 +254,7 @@ Limits ==
             \cup (IF side = "S" /\ syn # {} /\ ~okS THEN Flag("C07", "negotiated-limits-differ-from-what-the-peer-advertised") ELSE {})
             \cup (IF side = "C" /\ I # {} /\ ~okC THEN Flag("C07", "negotiated-limits-differ-from-what-the-peer-advertised") ELSE {})
     /\ UNCHANGED <<st, closing, T, ka, lastHeard, inbox, lastStep, maxGap, connectT, cNonce, synSeen, synCount, curSynack, ackFwd, srvIssued, cliAcked, used, sAccepted, cAccepted, errFwd, saFwd,
-                   sentOn, relWait, mustDeliver, discAt, discCount, lng, nData, bytesIn, bytesOut, verified, trackedPrev, trackedBefore, synThisStep, synLastStep, cfg>>
+                   sentOn, relWait, mustDeliver, discAt, discCount, lng, nData, bytesIn, bytesOut, verified, apPrev, apBefore, trackedPrev, trackedBefore, synThisStep, synLastStep, cfg>>
 
 \* ------------------------------------------------------------------------------------------- events
 FirstSynackFor(q, mine) ==   \* nonce of the first SYN-ACK in the inbox that echoes `mine`
@@ -365,7 +366,7 @@ Event ==
               /\ st' = [st EXCEPT ![k] = IF side = "C" THEN "done" ELSE "idle"]
               /\ UNCHANGED <<used, sAccepted, cAccepted, verified, lastHeard, closing, relWait, sentOn, mustDeliver, discAt, discCount, lng, nData>>
          [] OTHER -> UNCHANGED <<bad, st, used, sAccepted, cAccepted, verified, lastHeard, closing, relWait, sentOn, mustDeliver, discAt, discCount, lng, nData>>
-    /\ UNCHANGED <<T, ka, inbox, lastStep, maxGap, connectT, cNonce, synSeen, synCount, curSynack, ackFwd, srvIssued, cliAcked, errFwd, saFwd, bytesIn, bytesOut, trackedPrev, trackedBefore, synThisStep, synLastStep, cfg>>
+    /\ UNCHANGED <<T, ka, inbox, lastStep, maxGap, connectT, cNonce, synSeen, synCount, curSynack, ackFwd, srvIssued, cliAcked, errFwd, saFwd, bytesIn, bytesOut, apPrev, apBefore, trackedPrev, trackedBefore, synThisStep, synLastStep, cfg>>
 
 \* --------------------------------------------------------------------------------------- end of step
 
@@ -383,6 +384,14 @@ StepEnd ==
        /\ inbox' = [k \in Keys |-> IF k \in mine THEN <<>> ELSE inbox[k]]
        /\ lastStep' = [lastStep EXCEPT ![e] = t]
        /\ maxGap' = [maxGap EXCEPT ![e] = g]
+       /\ apPrev' = IF e = "s"
+                    THEN Cardinality({i \in 1..Len(Cur.tracked) :
+                            LET q == Cur.tracked[i].peer  kq == K("S", q) IN
+                            \/ Cur.tracked[i].active
+                            \/ ~( \/ (q \in Peers /\ st[kq] = "conn" /\ discAt[kq] >= 0)             \* closing: the server has sent its DISCONNECT
+                                  \/ (q \in Peers /\ lng[kq].at >= 0 /\ t < lng[kq].at + 20000) )})     \* lingering in Closed
+                    ELSE apPrev
+       /\ apBefore' = IF e = "s" THEN apPrev ELSE apBefore
        /\ trackedPrev' = IF e = "s" THEN Cur.ntracked ELSE trackedPrev
        /\ trackedBefore' = IF e = "s" THEN trackedPrev ELSE trackedBefore
        /\ synLastStep' = IF e = "s" THEN synThisStep ELSE synLastStep
@@ -405,7 +414,7 @@ StepEnd ==
 Skip ==
     /\ IsOneOf({"End", "FaultsEnd", "Net", "Ret", "Step"})
     /\ UNCHANGED <<st, closing, T, ka, lastHeard, inbox, lastStep, maxGap, connectT, cNonce, synSeen, synCount, curSynack, ackFwd, srvIssued, cliAcked, used, sAccepted, cAccepted, errFwd, saFwd,
-                   sentOn, relWait, mustDeliver, discAt, discCount, lng, nData, bytesIn, bytesOut, verified, trackedPrev, trackedBefore, synThisStep, synLastStep, cfg, bad>>
+                   sentOn, relWait, mustDeliver, discAt, discCount, lng, nData, bytesIn, bytesOut, verified, apPrev, apBefore, trackedPrev, trackedBefore, synThisStep, synLastStep, cfg, bad>>
 
 Next == /\ (Reset \/ AppConnect \/ App \/ Wire \/ Fwd \/ Event \/ Limits \/ StepEnd \/ Skip)
         /\ seenWhy' = IF Rec[l].ev = "Reset" THEN {} ELSE seenWhy \cup {<<b[1], b[2]>> : b \in bad' \ bad}
